@@ -1,0 +1,25 @@
+//go:build verif
+
+// Contracts for package cipher (comment-only; read by /verif/govc).
+
+package cipher
+
+//@ struct const KeyIter == 64
+//@   property C09
+//@ struct const KeyRefreshInterval == 120000000000
+//@   property C09 C08
+//@ struct const DefaultNonceSize == 24
+//@   property C09
+//@ struct const DefaultOverhead == 16
+//@   property C09
+//@ struct const DefaultKeyLen == 32
+//@   property C09
+//@ struct const NoncePrefixLenForUserHint == 16
+//@   property C09
+//@ struct const NonceSuffixLenForUserHint == 4
+//@   property C09
+//@
+//@ func cipherKeyEpoch(t time.Time) (r int64)
+//@   property C08 C09
+//@   requires 0 <= unixnano(t) && unixnano(t) < 4611686018427387904
+//@   ensures mathint(r) == slotOf(unixnano(t))
